@@ -7,12 +7,13 @@ from .c11 import rule_eligible_only, rule_frequency_zero
 from .c12 import rule_pool_guard
 from .c13 import rule_buffer
 from .c14 import rule_frame_kind_dispatch, rule_casts
+from .c16 import rule_replica_caches
 
 RULES = [
     # Signers::weight / bit operations assert equal lengths: every verify path checks signers.len() == schedule.len() first
     ("C04.1", rule_commit_qc_verify), ("C04.2", rule_timeout_qc_verify),
     # CommitQC::add / TimeoutQC::add cannot fail in the replica: membership, duplicate, signature checks precede them
-    ("C04.3", rule_add),
+    ("C04.3", rule_add), ("C16.5", rule_replica_caches),
     # leaders non-empty, weights > 0, total weight >= 1 (indexing and modulus in view_leader)
     ("C07.3", rule_domain), ("C11.2", rule_eligible_only), ("C11.5", rule_frequency_zero),
     # PoolWatch::remove decrements only what insert counted
